@@ -10,11 +10,30 @@ pub struct Ctx {
     pub pos: usize,
     pub next_id: u32,
     last_binder: Option<String>,
+    /// expression context every use slot is placed in (see `USE_WRAPS`)
+    pub wrap: u8,
 }
+
+/// Expression contexts for use slots: what a name stands in changes how the body is lowered and
+/// inferred, not what it refers to.
+pub const USE_WRAPS: &[&str] = &[
+    "bare",
+    "operand of `!`",
+    "operand of `-`",
+    "argument of a piped call",
+    "message of `panic as`",
+    "message of `todo as`",
+    "list element",
+    "tuple element",
+    "call argument",
+    "operand of `+`",
+    "in a block",
+    "argument of a call piped into a call",
+];
 
 impl Ctx {
     pub fn new(assign: Vec<u8>) -> Self {
-        Ctx { assign, pos: 0, next_id: 0, last_binder: None }
+        Ctx { assign, pos: 0, next_id: 0, last_binder: None, wrap: 0 }
     }
     pub fn mark(&mut self, n: &str) -> String {
         self.next_id += 1;
@@ -39,7 +58,29 @@ impl Ctx {
     /// a use slot
     pub fn u(&mut self) -> Expr {
         let n = self.pick();
-        Expr::Var(self.mark(n))
+        let v = Expr::Var(self.mark(n));
+        self.wrap_expr(v)
+    }
+    /// `v` placed in the expression context `self.wrap` (`f` takes one argument, `g` two)
+    pub fn wrap_expr(&self, v: Expr) -> Expr {
+        let call = |name: &str, args: Vec<Expr>| Expr::Call(Box::new(Expr::Var(name.into())), args.into_iter().map(|e| Arg { label: None, value: ArgValue::Expr(e) }).collect());
+        let one = || Expr::Int("1".into());
+        match self.wrap {
+            1 => Expr::Not(Box::new(v)),
+            // under a binary operator: `-x` at the start of a statement would continue the previous one
+            2 => Expr::Bin("*", Box::new(one()), Box::new(Expr::Neg(Box::new(v)))),
+            3 => Expr::Pipe(Box::new(one()), Box::new(call("g", vec![v]))),
+            // in a block: the message of `panic as` extends over any operator that follows
+            4 => Expr::Block(vec![Stmt::Expr(Expr::Panic(Some(Box::new(v))))]),
+            5 => Expr::Block(vec![Stmt::Expr(Expr::Todo(Some(Box::new(v))))]),
+            6 => Expr::List(vec![one(), v], None),
+            7 => Expr::Tuple(vec![one(), v]),
+            8 => call("g", vec![one(), v]),
+            9 => Expr::Bin("+", Box::new(one()), Box::new(v)),
+            10 => Expr::Block(vec![Stmt::Expr(v)]),
+            11 => Expr::Pipe(Box::new(one()), Box::new(call("g", vec![call("f", vec![v])]))),
+            _ => v,
+        }
     }
 }
 
@@ -229,9 +270,12 @@ pub fn program(ctx: Context, shapes: &[(usize, Option<usize>)], c: &mut Ctx) -> 
     // qualified uses of the imported module
     if ctx.import != 0 {
         let q = |c: &mut Ctx, name: &str| Expr::Field(Box::new(Expr::Var(c.mark(accessor))), c.mark(name));
-        body.push(Stmt::Expr(Expr::Call(Box::new(q(c, "x")), vec![])));
-        body.push(Stmt::Expr(q(c, "y")));
-        body.push(Stmt::Expr(Expr::Call(Box::new(q(c, "hidden")), vec![])));
+        let e = Expr::Call(Box::new(q(c, "x")), vec![]);
+        body.push(Stmt::Expr(c.wrap_expr(e)));
+        let e = q(c, "y");
+        body.push(Stmt::Expr(c.wrap_expr(e)));
+        let e = Expr::Call(Box::new(q(c, "hidden")), vec![]);
+        body.push(Stmt::Expr(c.wrap_expr(e)));
         if ctx.import == 5 {
             body.push(Stmt::Expr(Expr::Call(Box::new(Expr::Var(c.mark("hidden"))), vec![])));
             body.push(Stmt::Expr(Expr::Ctor(c.mark("T"))));
@@ -243,5 +287,9 @@ pub fn program(ctx: Context, shapes: &[(usize, Option<usize>)], c: &mut Ctx) -> 
     items.push(Item::Fn { public: true, external: false, target: None, name: c.mark("main"), params, ret: None, body: Some(body) });
     // a second function after main: top-level items are visible regardless of order
     items.push(Item::Fn { public: false, external: false, target: None, name: c.mark("f"), params: vec![Param { label: None, name: c.mark("a"), ty: None }], ret: None, body: Some(vec![Stmt::Expr(Expr::Var(c.mark("a")))]) });
+    if c.wrap != 0 {
+        // the two-parameter helper of the call contexts
+        items.push(Item::Fn { public: false, external: false, target: None, name: c.mark("g"), params: vec![Param { label: None, name: c.mark("a"), ty: None }, Param { label: None, name: c.mark("b"), ty: None }], ret: None, body: Some(vec![Stmt::Expr(Expr::Var(c.mark("a")))]) });
+    }
     Some(vec![("main".to_string(), Module { items }), ("m".to_string(), m)])
 }
